@@ -336,9 +336,14 @@ PROPS["C11"] = dict(PROPS["C01"], lean=["Gengo.Props.C11"],
                "and direct imports; in v2, where the scan is interleaved with the visits of the imports, the package is complete (types and "
                "declarations) when addPkgToUniverse returns (requested_package_complete_v2; its record with name and imports survives the "
                "visits of all imports that run between scan and record: package_recorded_v2 of C01), and a package once complete stays complete "
-               "through everything any loader does afterwards (completeFor_keeps). PARTIAL: receivers are outside the cross-universe statement (a method signature prints "
-               "like the plain function type); that the common part contains everything reachable from the packages requested in both "
-               "is compared, not proved. v1 Builder: findTypesIn leaves the state untouched for a package that "
+               "through everything any loader does afterwards (completeFor_keeps). The common part is closed under reachability (Lemmas/WalkReach.lean, reachable_parts_agree_v1/v2): the naming "
+               "invariant knows from a name alone whether an object of the builtins table or an object filled from a node sits under it, so what is filled "
+               "in one universe and has a kind in the other was filled there too; references of corresponding objects correspond "
+               "position by position and every reference has a kind (closedness, C06) - hence whatever is reached from a type both "
+               "histories requested, along any sequence of positions (element, key, i-th member, parameter, result, underlying type), has "
+               "a counterpart reached along the same positions in the other universe, of the same kind, and so on. "
+               "PARTIAL: receivers are outside the cross-universe statement (a method signature prints "
+               "like the plain function type), and so are the method tables of defined types (those of interfaces are inside). v1 Builder: findTypesIn leaves the state untouched for a package that "
                "was not requested, scans exactly the scope of a requested one, fails for a package the type checker does not know; "
                "FindTypes and AddDirTo keep / extend the request set. On the full model: whatever name resolved to an object before an "
                "incremental load (v2 LoadPackagesTo, v1 AddDirTo) resolves to the same object afterwards, with the same name and any kind it had. The complete universes of random splits/orders are compared on the real loaders with the model and "
